@@ -177,6 +177,7 @@ type c17world struct {
 	dispID  map[*dispatch.Dispatcher]int
 	cleanup func()
 	stuck   bool
+	unbuf   bool // a waiter channel without room for its one result: every send to it blocks the loop
 }
 
 var c17slowWaits int32
@@ -358,6 +359,11 @@ func (w *c17world) exec(o c17op) bool {
 		if mine != nil {
 			w.newEv[call] = mine
 			w.errcs[call] = mine.e.(newTorrentEvent).errc
+			if cap(w.errcs[call]) < 1 {
+				// "no send can block the event loop" rests on at most one send per call AND one
+				// free slot per call: without the slot the loop waits for the caller in every apply
+				w.unbuf = true
+			}
 		}
 		return true
 	case "Feed":
@@ -612,10 +618,10 @@ func c17oneCase(kind string, nblobs, knownMask, sTTI, lTTI int, next c17script, 
 		}
 	}
 	coq := fmt.Sprintf("mkcase (mkCfg %d %d) %s %s %s %s %s", sTTI, lTTI, verifhlib.Ns(known),
-		verifhlib.List(sops), verifhlib.List(sobs), verifhlib.B(w.stuck), verifhlib.List(ssur))
+		verifhlib.List(sops), verifhlib.List(sobs), verifhlib.B(w.stuck || w.unbuf), verifhlib.List(ssur))
 	cs := verifhlib.Case{Coq: coq, NT: len(calls) >= 1 && strings.Contains(strings.Join(hist, " "), "ApNew"),
 		Kind: kind, Hist: hist, Incon: incon, Tags: tags,
-		Sample: map[string]interface{}{"ops": sops, "obs": sobs, "loop_stuck": w.stuck, "surplus_sends": ssur}}
+		Sample: map[string]interface{}{"ops": sops, "obs": sobs, "loop_stuck": w.stuck, "waiter_channel_unbuffered": w.unbuf, "surplus_sends": ssur}}
 	if !w.loop.stopped {
 		w.loop.stop()
 	}
